@@ -121,6 +121,13 @@ pub fn vote_built() -> Vec<Scen> {
             "votes-own-notar-a-and-fallback-x-then-finalized",
             cat(vec![votes(n, 1, A, &[0, 1]), votes(VK::NotarFb, 1, X, &[0, 2]), votes(n, 2, A, &[0, 1, 2]), vec![link(2, A, 1, A)]]),
         ),
+        // the highest finalized slot is fast-finalized from votes: the bundle proves it with the
+        // fast-finalization certificate alone, which must be enough for the receiver's ready parents
+        s("votes-fast-final-tip-last-slot-of-window", cat(vec![votes(n, 3, A, &[0, 1, 2]), vec![link(3, A, 2, A)]])),
+        s(
+            "votes-fast-final-tip-then-rest-of-window-skipped",
+            cat(vec![votes(n, 1, A, &[0, 1, 2]), votes(sk, 2, 0, &[0, 1]), votes(sk, 3, 0, &[1, 2]), vec![link(1, A, 0, 0)]]),
+        ),
         s(
             "votes-own-later-votes-and-skip",
             cat(vec![
@@ -348,6 +355,12 @@ fn votor_forwards_bundle(report: &Report) -> usize {
 /// `recover_from_standstill` -> Votor re-broadcasts the bundle -> repair fetches missing blocks).
 /// Every live node must be finalizing again, well beyond the frontier it had when the loss ended.
 fn whole_node_loss_recovery(report: &Report, tier: Tier) -> Vec<Value> {
+    whole_node_loss_recovery_for(report, tier, "C18", false)
+}
+
+/// `prop` names the property the verdicts are reported under; with `slow_path_only` only the
+/// five-validator slow-path family is run (used by C02).
+pub fn whole_node_loss_recovery_for(report: &Report, tier: Tier, prop: &'static str, slow_path_only: bool) -> Vec<Value> {
     use crate::common::{catch, take_thread_panics};
     use crate::simnet::{Cluster, runtime};
     use rayon::prelude::*;
@@ -367,6 +380,24 @@ fn whole_node_loss_recovery(report: &Report, tier: Tier) -> Vec<Value> {
     for w in tier.pick(vec![2u64], vec![1, 2, 3, 5]) {
         jobs.push((4, ["", "own-window-1", "own-window-2", "own-window-3", "", "own-window-5"][w as usize], w * 1600 - 400, w * 1600 + 2400));
     }
+    if slow_path_only {
+        jobs.clear();
+    }
+    // slow path only: stakes [21, 21, 21, 19 silent, 18 crashed] - 63 % responsive, so nothing is
+    // fast-finalized and every live node is needed for every quorum; the third live node loses all
+    // traffic for a while, starting at different points inside a slot. What it missed (e.g. the
+    // notarization certificate of a tip the others finalized with its votes) can only come back
+    // through the standstill bundles.
+    for from in tier.pick(vec![2400u64, 2600, 2800], (2400..=3200).step_by(50).collect()) {
+        jobs.push((5, "slow-path-one-of-three-live-nodes-cut-off", from, from + 2000));
+    }
+    // stakes [27, 27, 27, 19]: the third node is cut off while the other three (73 %) go on finalizing
+    // on the slow path without it; then the 19 % node crashes for good and the links heal. From then
+    // on the laggard is needed for every quorum, and what it missed - incl. the notarization
+    // certificate of a tip the others finalized without it - can only reach it in the bundles.
+    for from in tier.pick(vec![2400u64, 2600, 2800], (2400..=3200).step_by(100).collect()) {
+        jobs.push((4, "laggard-then-crash-of-the-19-percent-node", from, from + 2400));
+    }
     let results: Vec<Value> = jobs
         .par_iter()
         .map(|(n, pattern, from, to)| {
@@ -377,7 +408,15 @@ fn whole_node_loss_recovery(report: &Report, tier: Tier) -> Vec<Value> {
             let r = catch(|| {
                 let rt = runtime(13);
                 rt.block_on(async {
-                    let cluster = Cluster::start(&vec![10u64; n], Duration::from_millis(2), &BTreeSet::new());
+                    let slow5 = pattern.starts_with("slow-path");
+                    let laggard = pattern.starts_with("laggard");
+                    let cluster = if laggard {
+                        Cluster::start(&[27, 27, 27, 19], Duration::from_millis(2), &BTreeSet::new())
+                    } else if slow5 {
+                        Cluster::start(&[21, 21, 21, 19, 18], Duration::from_millis(2), &[3usize, 4].into_iter().collect())
+                    } else {
+                        Cluster::start(&vec![10u64; n], Duration::from_millis(2), &BTreeSet::new())
+                    };
                     let mut t = 0u64;
                     let mut at_heal: Vec<Option<u64>> = Vec::new();
                     let mut lossy_on = false;
@@ -393,6 +432,7 @@ fn whole_node_loss_recovery(report: &Report, tier: Tier) -> Vec<Value> {
                                         && match *pattern {
                                             "partition-2-vs-rest" => (a < 2) != (b < 2),
                                             "one-node-cut-off" => a == n - 1 || b == n - 1,
+                                            p if p.starts_with("slow-path") || p.starts_with("laggard") => a == 2 || b == 2,
                                             p if p.starts_with("own-window-") => {
                                                 let k = p["own-window-".len()..].parse::<usize>().unwrap() % n;
                                                 a == k || b == k
@@ -407,29 +447,42 @@ fn whole_node_loss_recovery(report: &Report, tier: Tier) -> Vec<Value> {
                         }
                         if lossy_on && t >= to {
                             lossy_on = false;
-                            cluster.hub.inner.lock().unwrap().lossy.clear();
+                            let mut g = cluster.hub.inner.lock().unwrap();
+                            g.lossy.clear();
+                            if laggard {
+                                g.crashed.insert(3);
+                            }
+                            drop(g);
                             at_heal = cluster.finalized().await;
                         }
                     }
-                    (at_heal, cluster.finalized().await, cluster.tasks_alive())
+                    let mut end = cluster.finalized().await;
+                    if laggard {
+                        // the crashed node's own view does not count
+                        end[3] = None;
+                        if at_heal.len() > 3 {
+                            at_heal[3] = None;
+                        }
+                    }
+                    (at_heal, end, cluster.tasks_alive())
                 })
             });
             let panics = take_thread_panics();
             match r {
                 Err(p) => {
-                    report.violation("C18:whole-node-recovery:simulation-panicked".to_string(), p, replay.clone());
+                    report.violation(format!("{prop}:whole-node-recovery:simulation-panicked"), p, replay.clone());
                     json!({"scenario": replay, "outcome": "panic"})
                 }
                 Ok((at_heal, end, alive)) => {
                     if !panics.is_empty() || alive.iter().any(|a| !a) {
-                        report.violation(format!("C18:whole-node-recovery:node-task-died:{pattern}"), format!("{:?}", panics.first()), replay.clone());
+                        report.violation(format!("{prop}:whole-node-recovery:node-task-died:{pattern}"), format!("{:?}", panics.first()), replay.clone());
                     }
                     let frontier = at_heal.iter().flatten().copied().max().unwrap_or(0);
                     let min_end = end.iter().flatten().copied().min().unwrap_or(0);
                     // 12 s after the standstill timer at the latest: at least 3 windows beyond the frontier
                     if min_end < frontier + 12 {
                         report.violation(
-                            format!("C18:whole-node-recovery:no-progress-after-loss:{pattern}"),
+                            format!("{prop}:whole-node-recovery:no-progress-after-loss:{pattern}"),
                             format!("n={n}: messages on {pattern} links were lost from {from} to {to} ms; finalized slots when the links healed {at_heal:?}, {} ms later {end:?}", total - to),
                             replay.clone(),
                         );
